@@ -727,6 +727,7 @@ func (m *Memberlist) ensureCanConnect(from net.Addr) error {
 }
 
 func (m *Memberlist) handleAlive(buf []byte, from net.Addr) {
+	defer m.vop("udpalive", from)()
 	if err := m.ensureCanConnect(from); err != nil {
 		m.logger.Printf("[DEBUG] memberlist: Blocked alive message: %s %s", err, LogAddress(from))
 		return
